@@ -171,6 +171,11 @@ class ClientAuthenticator:
                 self.sendAuthMessage(
                     b'ERROR ' + str(e).encode('unicode-escape'))
 
+        else:
+            # this mechanism has no challenge to answer: abandon it, the
+            # server's REJECTED then starts the next one
+            self.sendAuthMessage(b'CANCEL')
+
     def _auth_ERROR(self, line):
         if self.unixFDNegotiating:
             # the server will not pass file descriptors: go on without them
